@@ -15,6 +15,7 @@ mod lists;
 mod capture;
 mod solve;
 mod syntax;
+mod reader;
 
 use serde_json::Value;
 
@@ -41,6 +42,7 @@ pub fn props_of(case: &Value) -> Vec<&'static str> {
         "bip" => bip::props_of(case),
         "mklist" | "rename" => lists::props_of(case),
         "solve" => solve::props_of(case),
+        "reader" => reader::props_of(case),
         t if t.starts_with("syn-") => syntax::props_of(case),
         _ => vec![],
     }
@@ -52,6 +54,7 @@ pub fn run_case(case: &Value) -> Vec<Obs> {
         "unify" => unify::replay(case),
         "bip" => bip::replay(case),
         "solve" => solve::replay(case),
+        "reader" => reader::replay(case),
         t if t.starts_with("syn-") => syntax::replay(case),
         "mklist" => lists::replay_mklist(case),
         "rename" => lists::replay_rename(case),
